@@ -51,6 +51,9 @@ impl TokenStream {
     pub fn new() -> (r: TokenStream) ensures uses(&r) == Set::<int>::empty() { unimplemented!() }
     #[verifier::external_body]
     pub fn q_push<T: ToTok>(&mut self, t: &T) ensures uses(final(self)) == uses(old(self)).union(t.tok_uses()) { unimplemented!() }
+    // Extend<TokenStream> for TokenStream
+    #[verifier::external_body]
+    pub fn extend(&mut self, other: TokenStream) ensures uses(final(self)) == uses(old(self)).union(uses(&other)) { unimplemented!() }
 }
 impl Expr {
     #[verifier::external_body]
